@@ -629,6 +629,12 @@ func (d defSnap) changed(h http.Header, body []byte) string {
 
 // run evaluates one case on the implementation; calls = targeter invocations.
 func run(k *kase) (f *fail, calls int) {
+	defer func() {
+		if p := recover(); p != nil {
+			// a well-formed document must yield targets, not a crash
+			f = &fail{"panic", fmt.Sprintf("the targeter panicked: %v", p)}
+		}
+	}()
 	def, dbody := mkDefaults(k.dv), mkBody(k.db)
 	ds := snapDefaults(def, dbody)
 	var want []exp
@@ -1280,6 +1286,7 @@ func TestC14(t *testing.T) {
 		{Method: "POST", URL: "http://a.test/q?a=\"b\"&c=<d>", Body: []byte{0, 1, 2, 0xff, 0xfe, '\n', '"'}, Header: http.Header{"If-None-Match": {`"abc\def"`}, "x-ünï": {"é \t", "<&>"}}},
 		{Method: "PATCH", URL: "https://u:p@b.test:8443/p/q?x=1&y=%20z", Header: http.Header{"X-A": {"1", "1", ""}, "x-a": {" lead", "trail "}}},
 		{Method: "DELETE", URL: "http://[::1]:80/", Body: []byte("{\"json\":true}\n")},
+		{Method: "PUT", URL: "http://a.test/big", Body: bytes.Repeat([]byte("0123456789"), 10000)}, // a line longer than every I/O buffer on the path (4 KiB, 64 KiB)
 	}
 	R.Set("roundtrip_lists", len(rtLists))
 	ev.Parallel(len(rtLists)+1, 16, func(ji int) {
